@@ -519,16 +519,28 @@ def script_info(script):
                     facs_seen.append(parts[-2] + "." + parts[-1])
     facs = facs_seen
     extra = set()
-    # literal extra keys appended to possible_options
+    # the list the unknown-option test compares with: `[.. for o in options if o not in <accepted>]`
+    accepted_name = "possible_options"
     for n in ast.walk(main.node):
-        if isinstance(n, ast.Assign) and isinstance(n.targets[0], ast.Name) and n.targets[0].id == "possible_options":
+        if isinstance(n, ast.Compare) and len(n.ops) == 1 and isinstance(n.ops[0], ast.NotIn) and isinstance(n.comparators[0], ast.Name) \
+                and any(isinstance(c, ast.comprehension) and n in c.ifs for c in ast.walk(main.node)):
+            accepted_name = n.comparators[0].id
+    # literal extra keys put into it (assignment, +=, .extend([...]), .append("..."))
+    for n in ast.walk(main.node):
+        if isinstance(n, ast.Assign) and isinstance(n.targets[0], ast.Name) and n.targets[0].id == accepted_name:
             for c in ast.walk(n.value):
-                if isinstance(c, ast.List):
+                if isinstance(c, (ast.List, ast.Tuple)):
                     for e in c.elts:
                         if isinstance(e, ast.Constant) and isinstance(e.value, str):
                             extra.add(e.value)
-        if isinstance(n, ast.AugAssign) and isinstance(n.target, ast.Name) and n.target.id == "possible_options":
+        if isinstance(n, ast.AugAssign) and isinstance(n.target, ast.Name) and n.target.id == accepted_name:
             for e in ast.walk(n.value):
+                if isinstance(e, ast.Constant) and isinstance(e.value, str):
+                    extra.add(e.value)
+        if isinstance(n, ast.Call) and isinstance(n.func, ast.Attribute) and n.func.attr in ("extend", "append") and isinstance(n.func.value, ast.Name) \
+                and n.func.value.id == accepted_name and len(n.args) == 1:
+            arg = n.args[0]
+            for e in (arg.elts if isinstance(arg, (ast.List, ast.Tuple)) else [arg]):
                 if isinstance(e, ast.Constant) and isinstance(e.value, str):
                     extra.add(e.value)
     reads = set()
